@@ -9,7 +9,7 @@ EXPLANATION = (
     "custom ignore file name is `.styluaignore`; should_respect_ignores is `!explicit || respect_ignores`; format_file "
     "has one caller (R-FS); the --glob override matcher is rooted at std::env::current_dir(); walker options are set once, "
     "in an order in which none overwrites another. Not decided: what the `ignore` crate's walker yields; path spelling aliases."
-    "Later rounds: (R-WALK roots) the loop over the path arguments cannot return to its head without WalkBuilder::add. Rounds 17-19: (R-IGNOREMATCH) path_is_stylua_ignored answers with matched_path_or_any_parents(path, false).")
+    "Later rounds: (R-WALK roots) the loop over the path arguments cannot return to its head without WalkBuilder::add. Rounds 17-19: (R-IGNOREMATCH) path_is_stylua_ignored answers with matched_path_or_any_parents(path, false). Rounds 20-21: the dispatch is guarded by Path::is_file of the entry's path (symbolic links followed).")
 ASSUMPTIONS = ["the `ignore` and `globset` crates behave as documented", "rustc MIR and Instance::try_resolve are trusted"]
 
 
